@@ -154,16 +154,23 @@ theorem modOp_asis_partial (a b : Int) (ha : 0 ≤ a) (hb : 0 < b) :
     Int.tmod_eq_emod_of_nonneg ha]
 example : (0 : Int) ≤ 7 ∧ (0 : Int) < 3 := by decide
 
-/-- REFUTATION (undefDeferred): `(true < 2) == 2` is `false` for the code, an error in Sass -/
+/-- REFUTATION (undefKept): `((true + 1) < 2) == 2` is `false` for the code, an error in Sass -/
+theorem asis_kept_refuted :
+    eval { spec with undefKept := true }
+      (.bin .eq (.bin .lt (.bin .add (.bool true) (.num 1)) (.num 2)) (.num 2)) = .ok (.bool false) ∧
+    eval spec (.bin .eq (.bin .lt (.bin .add (.bool true) (.num 1)) (.num 2)) (.num 2)) = .err := by
+  decide
+
+/-- REFUTATION (undefDeferred, code before 364945a): `(true < 2) == 2` was `false`, an error in Sass -/
 theorem asis_deferred_refuted :
     eval asis (.bin .eq (.bin .lt (.bool true) (.num 2)) (.num 2)) = .ok (.bool false) ∧
     eval spec (.bin .eq (.bin .lt (.bool true) (.num 2)) (.num 2)) = .err := by decide
 
-/-- PARTIAL (undefDeferred): on two numbers every strict operator is independent of the flag
+/-- PARTIAL (undefDeferred, undefKept): on two numbers every strict operator is independent of the flag
 (`and`/`or` are not strict and never reach `applyOp`) -/
 theorem applyOp_deferred_partial (q : Quirks) (o : BOp) (a b : Int) (ho : o ≠ .or ∧ o ≠ .and) :
-    applyOp { q with undefDeferred := true } o (.ok (.num a)) (.ok (.num b)) =
-    applyOp { q with undefDeferred := false } o (.ok (.num a)) (.ok (.num b)) := by
+    applyOp { q with undefDeferred := true, undefKept := true } o (.ok (.num a)) (.ok (.num b)) =
+    applyOp { q with undefDeferred := false, undefKept := false } o (.ok (.num a)) (.ok (.num b)) := by
   cases o <;> simp_all [applyOp, modOp, valEq]
 
 end C15
